@@ -119,6 +119,7 @@
 //! 
 
 #![warn(bare_trait_objects)]
+#![allow(unexpected_cfgs)]
 
 #[macro_use]
 extern crate lazy_static;
@@ -126,6 +127,12 @@ extern crate futures;
 
 #[cfg(not(target_arch = "wasm32"))]
 extern crate num_cpus;
+
+/// Verification hook (guarded by `--cfg desync_verif`): schedule-following primitives, source lives outside the repository
+#[cfg(desync_verif)]
+pub mod vsched {
+    include!(concat!(env!("DESYNC_VERIF_DIR"), "/vsched.rs"));
+}
 
 pub mod scheduler;
 pub mod desync;
